@@ -146,3 +146,25 @@ also("C17", "the OS-thread unlock is registered or made on every path after the 
 also("C18", "every lookup inside the matcher's walk is keyed by the name of the current level (so the depth-one test of 'd/*' is about direct children); no package-level mutable state in the file policy.")
 also("C19", FRESH + "; truncation handling is decided per flag test (one mask or one test per bit): every success return clears both bits, every truncated edge reaches the closer; the credential delivered is the standard parser's own copy, never a pointer into the receive buffer.")
 also("C20", "a constructor whose failure cleanup removes the handle's own group builds the handle as not owning; the v1 path helper returns the directory path on every return (also next to 'already exists').")
+
+
+# ---- rules added in the third pass (round-3 seeded changes; DESIGN.md 8.5) ----
+also("C01", "Build returns a filter or an error on every return (never (nil, nil)).")
+also("C02", "the readlink behind getProcCwd/getProcFd may sit in a helper; its result reaches the caller unmodified (no library post-processing).")
+also("C03", "on the path on which the trap handler reports a policy error (kill) the tracee is not continued, neither directly nor by a deferred call.")
+also("C04", FRESH + ".")
+also("C05", "the capability drop of C04.O1 holds for every configuration (a program that keeps CAP_SYS_ADMIN can remount).")
+also("C06", "a descriptor list that does not fit the control buffer is rejected, never delivered short (C19.2); descriptors the framework creates are born close-on-exec, memfd included.")
+also("C07", "the parent never switches the sync socket to non-blocking mode; the failed child is awaited with options 0; ChildError.Index is as wide as the loop index; one environment call at a time (mutex discipline of C17.5).")
+also("C08", "the limit signals are classified in every classifier (rows of the C09 tables); the container init does not ignore SIGXCPU/SIGXFSZ (ignored dispositions are inherited through exec).")
+also("C09", FRESH + "; the classifying waits ask for terminations only (no WUNTRACED/WCONTINUED); the tables are evaluated for the main pid and admit no dropped report; one environment call at a time.")
+also("C10", "the container init ignores every signal on which a Go process exits by default (os/signal reference list); the started-state handler and the wait goroutine cannot wait for each other (reap-all requested after the main result was taken, or result channel buffered).")
+also("C11", "the no-circular-wait rule of C10.")
+also("C12", "the reapers wait for the whole killed group, blocking, with no narrowing option; the launch-failure reaper rules of C07.3.")
+also("C14", "the receive control buffer is a compile-time constant large enough for SCM_MAX_FD descriptors plus a credential record.")
+also("C15", "the end of the main process ends the run on every path of the wait-status handler (tables of C09.1 for the ptrace classifier).")
+also("C16", "the parent acknowledges only after the callback returned (C07.2); every exit of the container's receive loop closes 'done'; the container init never changes its own credentials (the kernel would clear its parent-death signal).")
+also("C17", "no getrusage/times in the library packages; blocking raw system calls outside the forked child go through syscall.Syscall.")
+also("C18", "set lookups test the stored value (not key presence); path sets only ever receive true; the ancestor walk of AddFilePermission never adds the empty name.")
+also("C19", "the receive control buffer is a compile-time constant of sufficient size.")
+also("C20", "the cpuset bootstrap overwrites a group's own value only when it was read back empty.")
